@@ -74,7 +74,18 @@ class Or(Constraint):
     def __init__(self, **data) -> None:
         super().__init__(**data)
 
-        asst = z3.Or(_constraints_to_list_of_assertions(self.list_of_constraints))
+        # each operand counts as a whole: a constraint that comes with several
+        # assertions is satisfied only if all of them are
+        operands = []
+        for constraint in self.list_of_constraints:
+            assertions = _get_assertions(constraint)
+            if isinstance(assertions, list) and len(assertions) != 1:
+                operands.append(z3.And(assertions))
+            elif isinstance(assertions, list):
+                operands.append(assertions[0])
+            else:
+                operands.append(assertions)
+        asst = z3.Or(operands)
 
         self.set_z3_assertions(asst)
 
